@@ -10,7 +10,8 @@ from lib.core import existing_modules
 LEAN_MODULES = ['Sonic.Props.C01', 'Sonic.Props.C05']
 REQUIRED_THEOREMS = ["Sonic.Props.C01." + n for n in ["C01_skipSpace_naive", "C01_skipSpace_padded", "C01_skipSpace_cache_stable", "C01_literal", "C01_literal_spec",
                                                          "C01_accept_iff", "C01_accept_iff_fresh", "C01_ok_offset", "C01_fail_shape", "C01_pad_irrelevant_partial",
-                                                         "C01_width_irrelevant_partial"]]
+                                                         "C01_width_irrelevant_partial", "C01_pad_irrelevant", "C01_pad_irrelevant_fresh", "C01_width_irrelevant",
+                                                         "C01_width_differs"]]
 CONFIGS = [("avx2", "prod"), ("sse", "prod"), ("avx2", "san"), ("sse", "san")]
 CONFIGS_THOROUGH = CONFIGS + [("dyn", "prod"), ("dyn", "san")]
 PARSE_CODES = {"1", "2", "3", "4", "5", "6", "7", "15"}
@@ -31,7 +32,7 @@ LEVEL_TEXT = ("Machine-checked refinement proof (Lean 4) of the whole parser: fo
               "stack) accepts iff the RFC 8259 spec does (C01_accept_iff), success offset = length, failure => null document, parse code, offset "
               "<= length. The theorems carry ONE explicit per-input hypothesis, NumberCorrectOn: the number-conversion model agrees with the exact "
               "reference on the numbers of that input (C04 proves the grammar/integer/accumulation parts and validates the floating-point cores "
-              "per input) - hence level 'other' rather than 'proof'. Exact error code/offset independence of padding/width is _partial.")
+              "per input) - hence level 'other' rather than 'proof'. Error code/offset are proved independent of the uninitialised padding / node stack / previous document (C01_pad_irrelevant) and of the vector width except inside a malformed string literal, where both widths still report a string-failure code at an offset inside that literal (C01_width_irrelevant, C01_width_differs shows the exception is real).")
 LEVEL_NOTE = "Trusted: Lean kernel; standard axioms; compiled Lean evaluation of the spec; harness."
 TECHNIQUE = "Lean 4 executable RFC 8259 spec as oracle + component theorems; differential correspondence"
 
